@@ -31,6 +31,8 @@ var fnRefs = []fnRef{
 	{dir + "bind.go", "FloatingIPPlugin", "allocateIP", FuncSpec{"p", []string{"key", "nodeName", "pod"}}},
 	{"pkg/ipam/floatingip/ipam_crd.go", "crdIpam", "ReserveIP", FuncSpec{"ci", []string{"oldK", "newK", "attr"}}},
 	{"pkg/ipam/floatingip/ipam_crd.go", "crdIpam", "AllocateInSubnetWithKey", FuncSpec{"ci", []string{"oldK", "newK", "subnet", "attr"}}},
+	{"pkg/ipam/crd/crdcache.go", "crdCache", "getLister", FuncSpec{"c", []string{"gvr"}}},
+	{"pkg/ipam/crd/crdcache.go", "crdCache", "GetReplicas", FuncSpec{"c", []string{"gvr", "namespace", "name"}}},
 	{"pkg/ipam/floatingip/floatingip.go", "FloatingIP", "Assign", FuncSpec{"f", []string{"key", "attr", "updateAt"}}},
 	{"pkg/ipam/floatingip/floatingip.go", "FloatingIP", "CloneWith", FuncSpec{"f", []string{"key", "attr", "updateAt"}}},
 }
